@@ -41,7 +41,7 @@ FLOORS = {'steps': 5000, 'staleness_opportunities': 200,
           'fresh_model_comparisons': 500, 'name_sets': 10,
           'hostile_steps': 20, 'derived_models': 30,
           'long_chain_steps': 60, 'reloads_into_the_same_model': 5,
-          'inputs_emptied': 20}
+          'inputs_emptied': 20, 'unnormalised_sheet_names': 5}
 ANCHOR_FUNCS = {
     'xlcalculator/evaluator.py': ['Evaluator.evaluate',
                                   'Evaluator.set_cell_value',
@@ -451,6 +451,12 @@ def run_sampled(ctx, count):
     ref.QUIRKS.add('blank_compare_undecided')
     for hi in range(count):
         sheets = ('Sheet1',) if rng.random() < 0.6 else ('Sheet1', 'Data')
+        if hi % 5 == 4:
+            # a sheet name that a Unicode normalisation would change
+            sheets = ('Sheet1', rng.choice(['m\u00b2 data', '\u2161 b',
+                                           '\uff12\uff10\uff12\uff14 x',
+                                           'Cafe\u0301 1']))
+            ctx.event('unnormalised_sheet_names')
         m = gen.gen_model(rng, n_inputs=rng.randint(2, 10),
                           n_formulas=rng.randint(4, 30), sheets=sheets)
         cells = dict(m.cells)
